@@ -31,7 +31,7 @@ func runCmd(args []string) {
 	fs := flag.NewFlagSet("run", flag.ExitOnError)
 	rounds := fs.Int("rounds", 2, "rounds")
 	unwind := fs.Int("unwind", 4, "default unwind")
-	solver := fs.String("solver", "z3", "solver")
+	solver := fs.String("solver", "z3-new", "solver")
 	logf := fs.String("log", "", "smt log")
 	fs.Parse(args)
 	rest := fs.Args()
